@@ -153,7 +153,9 @@ def run(ctx, b, broken):
     from progsuite import ZOO
     DIRECTED = ['# 1 "a.c"\nint a;\n# 1 "inc.h" 1\nstruct s {int x;} p, *q;\n# 3 "a.c" 2\nenum e {A, B} c, d[2]; typedef union u {int i;} U, *PU;\n# 9 "other.h"\nstruct s r;',
                 "struct s {int x; struct in {int y;} m, n;} a, b, *c; void f(void){ struct t {int z;} l1, l2; enum {P, Q} e1, e2; }",
-                "#pragma top\nint a;\n#line 7\nvoid f(void){\n#pragma in\n a = 1; }\n# 2 \"x.h\"\ntypedef struct {int k;} T1, T2[2];"]
+                "#pragma top\nint a;\n#line 7\nvoid f(void){\n#pragma in\n a = 1; }\n# 2 \"x.h\"\ntypedef struct {int k;} T1, T2[2];",
+                # designators of every form: bare identifiers as array indexes, index expressions, member chains, mixtures
+                "enum { LO, HI = 3 }; int a[4] = { [HI] = 5, [LO] = 1 }; int b[2][4] = { [1][HI] = 2, [0][LO + 1] = 3 }; struct P { int m[4]; int k; } p = { .m[HI] = 1, .k = 2, .m = { [LO] = 7 } }; int c[] = { [HI - 1] = 4 };"]
     for text in DIRECTED + semgen.SEMZOO + [t for t, _v in ZOO]:
         try:
             ast_ = c_parser.CParser().parse(text, "d.c")
